@@ -225,7 +225,11 @@ func (r *NodeManagement) processNotifyDetailedDiscoveryData(message *api.Message
 
 		// is this addition?
 		if lastStateChange == model.NetworkManagementStateChangeTypeAdded {
-			entities, err := remoteDevice.AddEntityAndFeatures(false, data)
+			// only add the entity of this entry, the notification may also
+			// contain entries for other entities that are removed
+			entityData := *data
+			entityData.EntityInformation = []model.NodeManagementDetailedDiscoveryEntityInformationType{entity}
+			entities, err := remoteDevice.AddEntityAndFeatures(false, &entityData)
 			if err != nil {
 				return err
 			}
@@ -261,7 +265,9 @@ func (r *NodeManagement) processNotifyDetailedDiscoveryData(message *api.Message
 
 		// is this removal?
 		if lastStateChange == model.NetworkManagementStateChangeTypeRemoved {
-			for _, ei := range data.EntityInformation {
+			// only remove the entity of this entry, the notification may also
+			// contain entries for other entities that are added
+			for _, ei := range []model.NodeManagementDetailedDiscoveryEntityInformationType{entity} {
 				if err := remoteDevice.CheckEntityInformation(false, ei); err != nil {
 					return err
 				}
